@@ -37,3 +37,31 @@ Proof.
 Qed.
 
 Print Assumptions c_env_ok.
+
+(* ---- the binary64 instance: what remains assumed of the file I/O oracles *)
+From Pcfg Require Import PipelineDisk PipelineF64.
+
+Lemma c_rejected_linebreaks : forallb (fun c => memN c check_valid_rejected) (TAB :: py_linebreaks) = true.
+Proof. vm_compute. reflexivity. Qed.
+Lemma c_linebreaks_not_alpha : forallb (fun c => negb (c_isalpha c)) (TAB :: py_linebreaks) = true.
+Proof. vm_compute. reflexivity. Qed.
+
+Lemma lb_or_tab_in c : LB c || N.eqb TAB c = true -> In c (TAB :: py_linebreaks).
+Proof.
+  intros H. apply orb_true_iff in H. destruct H as [H|H].
+  - right. unfold LB, memN in H. apply existsb_exists in H. destruct H as (x & Hx & E). apply N.eqb_eq in E. now subst.
+  - left. apply N.eqb_eq in H. exact H.
+Qed.
+
+(* given the oracle assumptions on repr / float() / the codec (io_ok) and that
+   the ruleset encoding can encode the lower case of what it can encode *)
+Theorem c_io_env_ok io : io_ok io -> (forall c, f_encb io c = true -> f_encb io (lower1 c_lower c) = true) ->
+  io_env_ok c_env io.
+Proof.
+  intros Hio Hl. constructor.
+  - exact Hio.
+  - intros c Hc. exact (proj1 (forallb_forall _ _) c_rejected_linebreaks c (lb_or_tab_in c Hc)).
+  - intros c Hc. pose proof (proj1 (forallb_forall _ _) c_linebreaks_not_alpha c (lb_or_tab_in c Hc)) as H.
+    apply negb_true_iff in H. exact H.
+  - exact Hl.
+Qed.
